@@ -27,8 +27,23 @@ def nrc_of(node: ast.AST, env: dict[str, str]) -> str | None:
     return None
 
 
-def decision_table(fn) -> list[tuple[frozenset, str]]:
+def decision_table(fn, m=None) -> list[tuple[frozenset, str]]:
     g = CFG(fn.node)
+    if m is not None:
+        import copy
+        locs = m.local_names(fn)
+        def mk(t: str) -> str:
+            try:
+                tr_ = ast.parse(t, mode="eval")
+            except SyntaxError:
+                return t
+            for x in ast.walk(tr_):
+                if isinstance(x, ast.Name) and x.id in locs:
+                    x.id = "_L"
+            return ast.unparse(tr_)
+    else:
+        def mk(t: str) -> str:
+            return t
     rows = []
     for conds, term, visited in enumerate_paths(g):
         if term.kind == "raise" or term.ast is None:
@@ -40,7 +55,7 @@ def decision_table(fn) -> list[tuple[frozenset, str]]:
         if isinstance(term.ast, ast.Return):
             nrc = nrc_of(term.ast, env)
             outcome = nrc if nrc is not None else ("None" if ast.unparse(term.ast.value) == "None" else ast.unparse(term.ast.value))
-            rows.append((frozenset(conds), outcome, ast.unparse(term.ast.value)))
+            rows.append((frozenset((mk(c) if not c.startswith("loop:") else c, v) for c, v in conds), outcome, mk(ast.unparse(term.ast.value))))
     return rows
 
 
@@ -116,18 +131,19 @@ def run(m: Model, r: Report, tier: str) -> None:
             f"decision table {[(sorted(c), o) for c, o, _ in t2]}", loc=f2.loc)
     f3 = m.require_function(f"{SRV}.UDSServer.default_response_if_sub_function_not_supported")
     src3 = ast.unparse(f3.node)
-    t3 = decision_table(f3)
+    t3 = decision_table(f3, m)
     outer = [n for n in walk_no_nested(f3.node) if isinstance(n, ast.If) and "_is_sub_function_request(request)" in ast.unparse(n.test)]
     r.check(len(outer) == 1 and ast.unparse(outer[0].test).replace(" ", "") == "self._is_sub_function_request(request)andrequest.service_id!=UDSIsoServices.RoutineControl",
             "R3", f"{f3.qualname}#applicability", "the rule applies to sub-function services except RoutineControl", loc=f3.loc)
-    sf = [n for n in ast.walk(f3.node) if isinstance(n, ast.Assign) and ast.unparse(n.targets[0]) == "sub_function"]
+    sf = [n for n in ast.walk(f3.node) if isinstance(n, ast.Assign) and "request.pdu[1]" in ast.unparse(n.value)]
     r.check(len(sf) == 1 and ast.unparse(sf[0].value).replace(" ", "") in ("request.pdu[1]%128", "request.pdu[1]&127", "request.pdu[1]%0x80"), "R3",
             f"{f3.qualname}#sub-function-value",
             f"the looked-up sub-function is `{ast.unparse(sf[0].value) if sf else None}`; it must be byte 1 of the PDU without the suppress bit for parsed "
             "and unparsable requests alike (a malformed request with bit 7 set otherwise gets 0x12 instead of 0x13)", loc=f3.loc)
-    r.check(has_row(t3, ["not supported_in_active_session", "supported_in_other_session"], [], "subFunctionNotSupportedInActiveSession") and
-            has_row(t3, ["not supported_in_active_session"], ["supported_in_other_session"], "subFunctionNotSupported") and
-            "if session == self.state.session" in src3 and "if sub_function in supported_sub_functions" in src3, "R3", f"{f3.qualname}#table",
+    # flags by role: set True in the branch `== self.state.session` (active) / after it (other)
+    r.check(has_row(t3, ["not _L", "_L"], [], "subFunctionNotSupportedInActiveSession") and
+            has_row(t3, ["not _L"], ["_L"], "subFunctionNotSupported") and
+            m.has(f3, "session == self.state.session") and m.has(f3, "sub_function in supported_sub_functions"), "R3", f"{f3.qualname}#table",
             f"NRC selection changed: {sorted({o for _, o, _ in t3})}", loc=f3.loc)
     f4 = m.require_function(f"{SRV}.UDSServer.default_response_if_incorrect_format")
     t4 = decision_table(f4)
@@ -151,12 +167,12 @@ def run(m: Model, r: Report, tier: str) -> None:
             f"suppression table {[(sorted(c), o) for c, o, _ in ts]}; a response is dropped iff it is positive and the request is a sub-function request with the suppress bit", loc=fs.loc)
     resp = m.require_function(f"{SRV}.UDSServer.respond")
     g = CFG(resp.node)
-    upd = {n.id for n in g.nodes.values() if n.ast is not None and n.kind == "stmt" and "self.update_state(request, response)" in ast.unparse(n.ast)}
-    sup = {n.id for n in g.nodes.values() if n.ast is not None and "self.default_response_if_suppress(request, response)" in ast.unparse(n.ast) and n.kind in ("return", "stmt")}
+    upd = {n.id for n in g.nodes.values() if n.ast is not None and n.kind == "stmt" and "self.update_state(request, _L)" in m.mtext(resp, n.ast)}
+    sup = {n.id for n in g.nodes.values() if n.ast is not None and "self.default_response_if_suppress(request, _L)" in m.mtext(resp, n.ast) and n.kind in ("return", "stmt")}
     ok, path = g.must_pass(g.entry, upd, sup)
     r.check(bool(upd and sup) and ok, "R4", f"{resp.qualname}#state-before-suppression",
             "a suppressed positive reply must still change the state: update_state has to run before the suppression step", loc=resp.loc)
-    nn = [n for n in g.nodes.values() if n.kind == "cond" and n.ast is not None and ast.unparse(n.ast) == "response is not None"]
+    nn = [n for n in g.nodes.values() if n.kind == "cond" and n.ast is not None and m.mtext(resp, n.ast) == "_L is not None"]
     r.check(len(nn) == 1, "R4", f"{resp.qualname}#only-real-responses", "state update / suppression must be skipped when there is no response", loc=resp.loc)
 
     # ---------------------------------------------------------------- R5
